@@ -516,7 +516,7 @@ def _mk_params(n_variants=None):
     tys = [None, T.NamedType("int", "builtins.int"), T.TupleType([T.NamedType("str", "builtins.str")]),
            T.SetType([T.NamedType("int", "builtins.int")]), T.NamedType("my_cls", "other.m.my_cls")]
     defaults = [(False, None), (True, None), (True, True), (True, 3), (True, '"x"'), (True, "()"), (True, "{}"), (True, UnknownValue())]
-    names = ["a", "my_param", "val", "_x"]
+    names = ADV_NAMES
     out = []
     i = 0
     for kind in PA:
@@ -877,8 +877,24 @@ def _property_cases(seed, tier):
 create_property_function_string.native_cases = staticmethod(_property_cases)
 
 
+# identifiers chosen to separate the renaming / escaping orders: keywords, keywords with leading / trailing underscores
+# (become keywords only after the naming conversion), snake case that converts, names the conversion leaves alone
+ADV_NAMES = ["a", "my_param", "val", "_x", "from_", "in_", "_class", "class", "yield", "as__", "__union", "Union",
+             "a_b_c", "A", "_private_thing", "x1", "result_1", "_", "out", "out_put", "sub_", "literal", "true_"]
+
+
 def _result_cases(seed, tier):
     from specs.fixtures import apis, fresh_generator, owner_module
+    from safeds_stubgen.api_analyzer import _types as T
+    from safeds_stubgen.api_analyzer._api import Result
+    tys = [T.NamedType("int", "builtins.int"), T.ListType([T.NamedType("str", "builtins.str")]), None,
+           T.NamedType("None", "builtins.None"), T.SetType([T.NamedType("int", "builtins.int"), T.NamedType("str", "builtins.str")])]
+    for conv in (False, True):
+        for i, nm in enumerate(ADV_NAMES):
+            yield {"self": _mk_gen(conv), "kwargs": {"function_results": [Result(f"f/{nm}", nm, tys[0])]}}
+            other = ADV_NAMES[(i * 7 + 3) % len(ADV_NAMES)]
+            yield {"self": _mk_gen(conv), "kwargs": {"function_results": [Result(f"f/{nm}", nm, tys[i % len(tys)]),
+                                                                          Result(f"f/{other}", other, tys[(i + 1) % len(tys)])]}}
     for api in apis(tier):
         for conv in (False, True):
             for f in api.functions.values():
@@ -891,7 +907,7 @@ create_result_string.native_cases = staticmethod(_result_cases)
 
 def _docstring_cases(seed, tier):
     from specs.fixtures import PKGS, api_for, fresh_generator, owner_module
-    for path, style in PKGS[(0 if tier != "quick" else 0):(len(PKGS) if tier != "quick" else 3)]:
+    for path, style in PKGS[(0 if tier != "quick" else 0):(len(PKGS) if tier != "quick" else 4)]:
         api = api_for(path, style)
         for conv in (False, True):
             for f in api.functions.values():
